@@ -399,6 +399,16 @@ FFILES = {
     'imports-broken.m': 'import "lib.m" import "syntax.m" item b4 -> l1',
 }
 FOPS = ['a.m', 'c.m', 'missing-import.m', 'syntax.m', 'dangling.m', 'imports-broken.m']
+# search-path configuration: the same import name means different files for models in different directories
+SP_FILES = {
+    'a/main.m': 'import "common.m" item x -> ca',
+    'a/common.m': 'item ca',
+    'a/extra.m': 'item ea',
+    'b/main.m': 'import "common.m" item y -> cl',
+    'lib/common.m': 'item cl',
+    'c/main.m': 'import "extra.m" item z',
+}
+SP_OPS = ['a/main.m', 'b/main.m', 'c/main.m']
 
 
 def file_outcome(mm, path):
@@ -419,13 +429,18 @@ def file_history_side(provider, global_repo, hist):
     from textx import metamodel_from_str
     import textx.scoping.providers as P
 
+    tmp = tempfile.mkdtemp(prefix='c16f_')
+
     def mk():
         mm = metamodel_from_str(FGRAMMAR, global_repository=global_repo)
-        mm.register_scope_providers({'*.*': getattr(P, provider)()})
+        if provider == 'search-path':
+            mm.register_scope_providers({'*.*': P.FQNImportURI(search_path=[os.path.join(tmp, 'lib')])})
+        else:
+            mm.register_scope_providers({'*.*': getattr(P, provider)()})
         return mm
-    tmp = tempfile.mkdtemp(prefix='c16f_')
     try:
-        for fn, text in FFILES.items():
+        for fn, text in (SP_FILES if provider == 'search-path' else FFILES).items():
+            os.makedirs(os.path.dirname(os.path.join(tmp, fn)), exist_ok=True)
             with open(os.path.join(tmp, fn), 'w') as f:
                 f.write(text)
         subject = mk()
@@ -446,7 +461,7 @@ def file_histories(item):
     bad = []
     n = 0
     for k in range(1, length + 1):
-        for hist in itertools.product(FOPS, repeat=k):
+        for hist in itertools.product(SP_OPS if provider == 'search-path' else FOPS, repeat=k):
             n += 1
             r = file_history_side(provider, global_repo, list(hist))
             if r and len(bad) < 3:
@@ -513,7 +528,7 @@ def main():
     if chk.cov['model_mismatches']:
         chk.harness_error('sympeg reports a history-dependent difference that the real textX does not show')
     # file histories (enumerated; no solver dimension)
-    fitems = [(p_, gr, 2 if quick else 3) for p_ in ('FQNImportURI', 'PlainNameImportURI') for gr in (False, True)]
+    fitems = [(p_, gr, 2 if quick else 3) for p_ in ('FQNImportURI', 'PlainNameImportURI', 'search-path') for gr in (False, True)]
     for it, (st, r, secs) in zip(fitems, pmap(file_histories, fitems)):
         if st != 'ok':
             chk.harness_error(r)
